@@ -522,7 +522,7 @@ BUFFERED_SOCKET = {
             'sock.send': ('send', ['Bytes'], 'Int'), 'time.time': ('time', [], 'Time')},
 }
 _C12 = []
-_C12_TIED = 6          # how many of the methods below have their tie theorem in C12/SrcTie.lean
+_C12_TIED = 9          # how many of the methods below have their tie theorem in C12/SrcTie.lean
 for _py, _params, _res, _thm in [
         ('recv_size', {'size': 'Int', 'timeout': 'Unset (Option Time)'}, 'Bytes', 'C12.src_recv_size_eq_model'),
         ('recv_until', {'delimiter': 'Bytes', 'timeout': 'Unset (Option Time)', 'maxsize': 'Unset (Option Int)',
